@@ -43,6 +43,13 @@ class C18(core.Prop):
              'style': {'source': 'relative', 'pipeline': 'default'}, 'marker': 'Mc0', 'zip': False},
             {'t': 'install', 'name': 'foo', 'version': '1', 'package': 'acme.core', 'where': {'source': 'source', 'pipeline': 'a.flow'},
              'style': {'source': 'default', 'pipeline': 'absolute'}, 'marker': 'Mc1', 'zip': True},
+            # relative module names that merely BEGIN with the package name (no dot after it) are still relative
+            {'t': 'install', 'name': 'foo', 'version': '1', 'package': 'acme', 'where': {'source': 'acme_source', 'pipeline': 'pipeline'},
+             'style': {'source': 'relative', 'pipeline': 'default'}, 'marker': 'Mc2', 'zip': False},
+            {'t': 'install', 'name': 'foo', 'version': '1', 'package': 'pipe', 'where': {'source': 'source', 'pipeline': 'pipeline'},
+             'style': {'source': 'default', 'pipeline': 'default'}, 'marker': 'Mc3', 'zip': True},
+            {'t': 'install', 'name': 'foo', 'version': '1', 'package': 'acme.core', 'where': {'source': 'acme.core_src', 'pipeline': 'acmeflow.main'},
+             'style': {'source': 'relative', 'pipeline': 'relative'}, 'marker': 'Mc4', 'zip': False},
             {'t': 'tag', 'trts': None, 'trord': None, 'okind': 'int', 'tuts': None, 'tuscore': None, 'states': []},
             {'t': 'tag', 'trts': None, 'trord': None, 'okind': 'int', 'tuts': 3, 'tuscore': 1, 'states': [0]},
             {'t': 'versions', 'a': '1.0.0', 'b': '1'},
@@ -106,7 +113,8 @@ class C18(core.Prop):
             # a package written to disk (directory / zip), installed, and its components loaded
             pkg = rng.choice(['acme', 'acme.core', 'x_y'])
             style = {c: rng.choice(['default', 'relative', 'relative', 'absolute']) for c in ('source', 'pipeline')}
-            where = {c: (c if style[c] == 'default' else rng.choice([f'{c}_mod', f'parts.{c}_in', f'a.b.{c}'])) for c in ('source', 'pipeline')}
+            where = {c: (c if style[c] == 'default' else rng.choice([f'{c}_mod', f'parts.{c}_in', f'a.b.{c}', f'{pkg}_{c}', f'{pkg}{c}.impl']))
+                     for c in ('source', 'pipeline')}
             out.append({'t': 'install', 'name': rng.choice(['foo', 'my-prj']), 'version': rng.choice(['1', '0.1.dev2']), 'package': f'{pkg}',
                         'where': where, 'style': style, 'marker': f'M{k}x{rng.randint(0, 99)}', 'zip': rng.random() < 0.5})
         for k in range(max(4, n // 40)):
